@@ -69,6 +69,10 @@ add("C06", "bounded-exhaustive enumeration of constant expressions (every operat
     "Every F1 operator, builtin, conversion and select on every operand tuple of its alphabet, written with suffixed literals, bare abstract literals and named constants, in the value contexts (folded let sub-expression, module const, function const, named operands) for scalar, vector and matrix shapes: the lowered module is executed by the IR interpreter and the SPIR-V by the SPIR-V interpreter and both must equal the reference evaluator's run-time value of the same expression. For scalar specs the non-value contexts are checked through their own observables: const_assert (true accepted / false rejected), switch case selector (case taken), array size (element count in the lowered type), @workgroup_size (LocalSize). Integer division and remainder by zero must be rejected in every context and shape.",
     "Compile-time and run-time evaluation agree by the WGSL rules on the alphabets used (shift counts < 32, non-overflowing left shifts, in-range conversions, bit-field operands with offset+count <= 32). f16 literals are not enumerated.", "DESIGN.md §3 C06")
 
+add("C14", "bounded-exhaustive enumeration of override programs x value maps x resolution routes; resolved code executed and compared with the substituted WGSL program under the reference evaluator",
+    "Override programs with a primary override of each scalar type (with/without @id, with/without default) and a derived override for every operator of the type, used in expressions, global initialisers and nested control flow, under every value map (absent; each alphabet value by name or by @id) and seven routes (ProcessOverrides followed by the IR interpreter and by each of the four backends; the MSL and GLSL PipelineConstants options). The result must equal the same program with the override replaced by a const of the supplied value converted to its type, or by its default; a missing value without default must be an error; the caller's module hash must not change.",
+    "Supplied values are representable in the override's type; workgroup-size and array-size uses of overrides are not enumerated yet.", "DESIGN.md §3 C14")
+
 NA = {
 }
 for i in range(1, 20):
